@@ -16,9 +16,10 @@ for d in sorted(x for x in os.listdir(".") if os.path.isdir(x)):
 out = ["# Seeded changes", "",
        "Each directory holds `patch.diff` (apply with `git -C /repo apply`), the sub-agent's demonstration (`demo_test.go`, a Go test",
        "to copy into `pkg/` or `cmd/` that fails with the patch and passes without), the agent's own notes and `meta.json`.",
-       "Every change was confirmed in a scratch worktree (`tools/seeded.py confirm`): it builds, the repository's whole test suite",
-       "passes with it, the demonstration fails with it and passes without it. `tools/matrix.py` applies each patch to /repo, runs the",
-       "quick check of the property it targets and undoes the patch; the last column is that run (exit 1 = VIOLATION reported).",
+       "Every change was confirmed in a scratch clone (`tools/seeded.py confirm`): it builds, the repository's whole test suite",
+       "passes with it, the demonstration fails with it and passes without it. `tools/matrix.py` applies each patch to a scratch clone",
+       "of /repo and runs the quick check of the property it targets there (`tools/evalcopy.py`; /repo itself is never touched);",
+       "the last column is that run (exit 1 = VIOLATION reported).",
        "",
        "`first` = outcome of the same check as it stood *before* the change was looked at (the honest detection rate of the machinery at",
        "that time); the checks were then strengthened where they missed (DESIGN.md 11.5) and `now` is the current outcome.", "",
